@@ -29,6 +29,7 @@ var c06Pool = []refmodel.RouteDef{
 	{Path: "/i", Methods: refmodel.Methods},
 	{Path: "/b", Methods: []string{"OPTIONS", "TRACE"}},
 	{Path: "/*", Methods: []string{"POST", "PUT"}},
+	{Path: `/a/{n:\d+}`, Methods: []string{"DELETE", "PATCH"}},
 }
 
 // two pool entries may not share a table when they would register the same static method+path twice
@@ -52,17 +53,18 @@ func c06Conflict(a, b int) bool {
 
 var c06Intercepts = []string{"", "/i", "i", "/i/", "/none", "/a/7"}
 var c06Methods = append(append([]string{}, refmodel.Methods...), "FOO")
-var c06Paths = []string{"/a", "/a/", "/a/1", "/b", "/zz", "/*", "/i", "/zz/y"}
+var c06Paths = []string{"/a", "/a/", "/a/1", "/b", "/zz", "/*", "/i", "/zz/y", "/a/zz"}
 
 type c06Case struct {
-	Routes     []int  `json:"routes"` // indices into the pool, registration order
-	NotAllowed bool   `json:"handle_method_not_allowed"`
-	Fallback   bool   `json:"handle_fallback_route"`
-	Strict     bool   `json:"strict_last_slash"`
-	Cache      bool   `json:"caching_cap1"`
-	Intercept  string `json:"intercept_all"`
-	CustomNF   bool   `json:"custom_not_found"`
-	CustomNA   bool   `json:"custom_not_allowed"`
+	Routes         []int  `json:"routes"` // indices into the pool, registration order
+	NotAllowed     bool   `json:"handle_method_not_allowed"`
+	Fallback       bool   `json:"handle_fallback_route"`
+	Strict         bool   `json:"strict_last_slash"`
+	Cache          bool   `json:"caching_cap1"`
+	Intercept      string `json:"intercept_all"`
+	CustomNF       bool   `json:"custom_not_found"`
+	CustomNA       bool   `json:"custom_not_allowed"`
+	InterceptFirst bool   `json:"intercept_option_first,omitempty"` // InterceptAll listed before the other options
 }
 
 func c06Gen(tier string, emit func(c06Case)) {
@@ -99,6 +101,10 @@ func c06Gen(tier string, emit func(c06Case)) {
 			for _, ic := range c06Intercepts {
 				for h := 0; h < 4; h++ {
 					emit(c06Case{Routes: t, NotAllowed: o&1 != 0, Fallback: o&2 != 0, Strict: o&4 != 0, Cache: o&8 != 0, Intercept: ic, CustomNF: h&1 != 0, CustomNA: h&2 != 0})
+					if ic != "" && h == 0 {
+						// options are applied in argument order: the same set with InterceptAll listed first
+						emit(c06Case{Routes: t, NotAllowed: o&1 != 0, Fallback: o&2 != 0, Strict: o&4 != 0, Cache: o&8 != 0, Intercept: ic, InterceptFirst: true})
+					}
 				}
 			}
 		}
@@ -143,7 +149,11 @@ func c06Run(c c06Case, st *fw.Stats) []fw.Viol {
 		opts = append(opts, rux.CachingWithNum(uint16(c06CacheCap(c))))
 	}
 	if c.Intercept != "" {
-		opts = append(opts, rux.InterceptAll(c.Intercept))
+		if c.InterceptFirst {
+			opts = append([]func(*rux.Router){rux.InterceptAll(c.Intercept)}, opts...)
+		} else {
+			opts = append(opts, rux.InterceptAll(c.Intercept))
+		}
 	}
 	rec := &hitRec{}
 	r, pv := buildRouter(defs, rec, opts...)
@@ -165,7 +175,7 @@ func c06Run(c c06Case, st *fw.Stats) []fw.Viol {
 		})
 	}
 	cfg := func() string {
-		return fmt.Sprintf("table [%s] options{notAllowed=%v fallback=%v strict=%v cache=%v intercept=%q customNF=%v customNA=%v}", defsString(defs), c.NotAllowed, c.Fallback, c.Strict, c.Cache, c.Intercept, c.CustomNF, c.CustomNA)
+		return fmt.Sprintf("table [%s] options{notAllowed=%v fallback=%v strict=%v cache=%v intercept=%q(listed first=%v) customNF=%v customNA=%v}", defsString(defs), c.NotAllowed, c.Fallback, c.Strict, c.Cache, c.Intercept, c.InterceptFirst, c.CustomNF, c.CustomNA)
 	}
 	// two rounds; inside a round all methods are tried on one path before the next path, so that
 	// every method is requested after every other method on the same path (cache history matters)
@@ -271,7 +281,7 @@ func c06Run(c c06Case, st *fw.Stats) []fw.Viol {
 var c06Spec = fw.Spec[c06Case]{
 	ID:    "C06",
 	Level: "model_checking",
-	Rule: "complete product: ordered tables of <=K routes from an 11-route pool x 2^4 option subsets {HandleMethodNotAllowed,HandleFallbackRoute,StrictLastSlash,caching (capacity 1 or 64)} x 6 InterceptAll values x {default,custom} NotFound x {default,custom} NotAllowed; per configuration 10 methods x 8 paths, each request twice through Match and ServeHTTP, vs refmodel.Resolve; " +
+	Rule: "complete product: ordered tables of <=K routes from an 13-route pool x 2^4 option subsets {HandleMethodNotAllowed,HandleFallbackRoute,StrictLastSlash,caching (capacity 1 or 64)} x 6 InterceptAll values (listed after and before the other options) x {default,custom} NotFound x {default,custom} NotAllowed; per configuration 10 methods x 8 paths, each request twice through Match and ServeHTTP, vs refmodel.Resolve; " +
 		"non-trivial = a request that is not a direct match (HEAD->GET, fallback, 405, 404)",
 	Assume: []string{"routes, paths and option values come from the stated alphabets"},
 	Bounds: func(tier string) map[string]any {
